@@ -172,8 +172,8 @@ def aware_input(rng, c, v, ad, plain):
     either chosen to LAND vint a fraction lam of the way from v to the current threshold (lam < 1 just below,
     lam > 1 just above, lam < 0 away from it), or to OPPOSE the intrinsic drive (vint0 - v) / g by a factor k —
     which is a huge negative current when the neuron is deep in a regenerative upswing.  Landing is used only while
-    it is well conditioned (the intrinsic change does not dwarf the distance to the threshold), and k stays away
-    from 1, so that the outcome never hangs on the cancellation of two huge terms."""
+    it is well conditioned (the intrinsic change does not dwarf the distance to the threshold, the voltage is within
+    a few orders of magnitude of the ordinary range), and k stays away from 1, so that the outcome never hangs on the cancellation of two huge terms."""
     kind = c["kind"]
     if not math.isfinite(v):
         return plain
@@ -187,7 +187,9 @@ def aware_input(rng, c, v, ad, plain):
     else:
         g = c["dt"] / c["tau"] * c["R"]
     gapv = thr - v
-    well = abs(vint0 - v) <= 1e3 * (abs(gapv) + 1.0)
+    # landing from a voltage far outside the ordinary range would make the new voltage a small difference of huge terms
+    # (and repeated landings would amplify one-ulp differences a hundredfold per step): only oppose there
+    well = abs(vint0 - v) <= 1e3 * (abs(gapv) + 1.0) and abs(v) <= 1e3 * (abs(thr) + abs(c["rest"]) + 1.0)
     if well and rng.random() < 0.55:
         ieff = (v + rng.choice(LAND) * gapv - vint0) / g
     else:
@@ -375,7 +377,10 @@ def explore(ctx) -> Exploration:
         if any(bool(tr[0][e]) for tr in traj):
             ex.nontriv((kind, tuple(sorted((k, str(v)) for k, v in cfg.items())), lock, adapt, e, tuple(case["inputs"])))
     ex.rule = ("per neuron class: hyper-parameters from dyadic grids (refrac_t in {0, dt/2, dt, 2.5dt, …}), shapes, batch sizes, "
-               "lock/adapt flags, input sequences mixing zero / huge / negative / near-threshold drives, optional clear(); each element's "
+               "lock/adapt flags, input sequences mixing zero / huge / negative / near-threshold drives, optional clear(); in about half the runs "
+               "a share of the inputs is computed at run time from the element's present state (integrated voltage landed a chosen fraction "
+               "of the way to the current threshold from either side, or the intrinsic drive opposed by a factor 1e-6 .. 100); a quarter of "
+               "the EIF / AdEx runs use a sharp upswing with (thresh - rheobase) / sharpness in 25 .. 300; each element's "
                "trajectory is one case; non-trivial = the element spiked at least once; distinct = distinct (class, config, flags, inputs)")
     ex.samples = [dict(plan[0][0], inputs=plan[0][6][0][:3]), dict(plan[-1][0], inputs=plan[-1][6][0][:3])]
     ex.extra["spikes_observed"] = int(nspk)
@@ -455,7 +460,7 @@ def contract(c, lock, adapt, e, pidx, inputs, clear_at, traj, batch, poke_at=Non
     ad_prev = [0.0] * len(c["tcA"])
     last_spike = None
     own_adapt = batch == 1 or kind not in ADAPTIVE or not adapt     # the adaptation state is this element's own
-    followed = False
+    followed = 0                     # free runs spent on naming the spike a state deviation displaces (at most 3, until one is named)
     for t, (s, v, r, ad, attr) in enumerate(traj):
         if clear_at == t:
             v_prev, r_prev = c["rest"], 0.0
@@ -527,11 +532,14 @@ def contract(c, lock, adapt, e, pidx, inputs, clear_at, traj, batch, poke_at=Non
                              f"{'maintained: in the refractory period under locking' if held else 'stepped' if adapt else 'carried: adaptation off'})")
         if state_dev is not None:
             what = state_dev[1]
-            if not followed and own_adapt:
-                followed = True
+            if followed < 3 and own_adapt:
+                followed += 1
                 d = doc_step(c, lock, adapt, v_prev, r_prev, ad_prev, I)
                 if not math.isnan(d["v"]):
-                    what += displaced_spike(c, lock, adapt, e, inputs, clear_at, traj, poke_at, poke, t, (d["v"], d["r"], d["ad"]))
+                    tail = displaced_spike(c, lock, adapt, e, inputs, clear_at, traj, poke_at, poke, t, (d["v"], d["r"], d["ad"]))
+                    what += tail
+                    if tail:
+                        followed = 3
             out.append((state_dev[0], what, t))
         v_prev, r_prev = vv, rr
         if ad_now is not None:
